@@ -10,4 +10,5 @@ cd "$ROOT/harness" && CARGO_TARGET_DIR="$ROOT/harness/target" cargo build --rele
 mkdir -p "$ROOT/fixtures"
 "$ROOT/harness/target/release/cwv" cw20 --mode mkfixtures --random 40 --len 30 --seed 7 --out "$ROOT/fixtures/cw20.ndjson" || exit 2
 "$ROOT/harness/target/release/cwv" cw1 --mode mkfixtures --random 30 --len 30 --seed 7 --out "$ROOT/fixtures/cw1.ndjson" || exit 2
+"$ROOT/harness/target/release/cwv" ics20 --mode mkfixtures --random 30 --len 30 --seed 7 --out "$ROOT/fixtures/ics20.ndjson" || exit 2
 wc -l "$ROOT"/fixtures/*.ndjson
